@@ -186,7 +186,7 @@ class RStr(str):
 
 
 class Val:
-    __slots__ = ("n", "__weakref__")
+    __slots__ = ("n", "ref", "__weakref__")     # ref: see the op `cyc`
 
     def __init__(self, n):
         self.n = n
@@ -329,6 +329,12 @@ class World:
             t[self.key(o[1])] = self.val(o[2])
             self.m_set(m, o[1], o[2])
             self.mutated()
+            return None, "None", "None"
+        if op == "cyc":
+            # a value object starts referring to an iterator over the tree it is (or will be)
+            # stored in: tree -> value -> iterator -> tree.  No effect on any result or on the
+            # reference counts of keys and values; only the cyclic collector can release the tree.
+            self.val(o[1]).ref = iter(t)
             return None, "None", "None"
         if op == "get":
             exp = ("val " + m[ordk(o[1])][1]) if ordk(o[1]) in m else "KeyError"
@@ -561,6 +567,20 @@ class World:
         self.iters.clear()
         self.copy = None
         self.t = None
+        if any(o and o[0] == "cyc" for o in self.ops):
+            # a value refers to an iterator over the tree: while the harness itself holds that
+            # value the tree is reachable, so nothing can be measured through reference counts.
+            # The harness drops every reference of its own first; then the cyclic collector must
+            # release the tree and with it every key and value object (weak references die).
+            self.tracked = []
+            self.K = self.V = None
+            self.names = {}
+            gc.collect()
+            alive = [n for n, w in self.wrefs if w() is not None]
+            self.out.append("E %s %s" % (hid, " ".join("%s=1" % n for n in alive) if alive else "balanced"))
+            if alive:
+                self.viol.append("VIOL C13 %s end objects still alive after the tree and all harness references are gone (a value referred to an iterator over the tree): %s" % (hid, " ".join(alive[:20])))
+            return
         gc.collect()
         d = self.deltas()
         left = " ".join("%s=%d" % (nm, x) for (nm, _), x in zip(self.tracked, d) if x)
